@@ -196,13 +196,24 @@ theorem announce_cycle (k : Consts) (t : DevTree) (n i : Nat) (h : i < n) :
 /-! ### the library's own listener -/
 
 /-- **one listener**: the `Str`-level predicates used above are the merged C03/C04 listener
-    model's: `udn_from_usn`, and the location test with the prefix and needles generated from
-    `ssdp_listener.py` (same for searches and advertisements) -/
+    model's: `udn_from_usn`, and the location test — `validLocation` IS `C03.Parse.locUsable`
+    (`ssdp_listener.is_usable_location`: http(s) scheme, decision on the parsed host: no `localhost`,
+    no loopback, no IPv4 link-local, nothing unparsable) with the constants generated from
+    `ssdp_listener.py` -/
 theorem listener_predicates (u l : Str) :
     C03.Parse.udnFromUsn (toS u) = (udnFromUsn u).map toS
-    ∧ C03.Parse.locOk C03.genCfg.searchPrefix C03.genCfg.searchNeedles (toS l) = validLocation l
-    ∧ C03.Parse.locOk C03.genCfg.advPrefix C03.genCfg.advNeedles (toS l) = validLocation l :=
-  ⟨udnFromUsn_eq u, (validLocation_eq l).1, (validLocation_eq l).2⟩
+    ∧ C03.Parse.locUsable C03.genCfg.searchPrefix C03.genCfg.schemes C03.genCfg.loopbackNames (toS l) = validLocation l :=
+  ⟨udnFromUsn_eq u, validLocation_eq l⟩
+
+/-- the hypothesis of `listener_accepts` is about the parsed host of `baseUri ++ deviceUrl`: other
+    spellings of an unusable address are refused too, ordinary IPv4 / IPv6 / named hosts are not -/
+example :
+    (["http://127.0.0.2:8000/device.xml", "http://localhost:8000/device.xml", "http://[::1]:8000/device.xml",
+      "http://169.254.7.7/d.xml", "ftp://192.168.1.5/d.xml", "http://LOCALHOST/d"].map fun l => validLocation l.toList)
+      = [false, false, false, false, false, false]
+    ∧ (["http://192.168.1.5:8000/device.xml", "https://server.example:8443/", "http://[2001:db8::1]:80/device.xml"].map
+        fun l => validLocation l.toList) = [true, true, true] := by
+  refine ⟨by decide +kernel, by decide +kernel⟩
 
 /-- **listener accepts** (composition with the C03/C04 model): take any message the server emits
     for a well-formed tree — any search answer (either option setting), any `ssdp:alive`, any
@@ -211,8 +222,8 @@ theorem listener_predicates (u l : Str) :
     dispatch and the validity predicates `valid_search_headers / valid_advertisement_headers /
     valid_byebye_headers`; `C03.step`: `SsdpDeviceTracker` and the `_on_*` callbacks) on a tracker
     that knows nothing (byebye: that has just processed the alive).  With a description URL the
-    listener does not reject by design (http…, not 127.0.0.1 / [::1] / 169.254 — IPv4, IPv6 or
-    named host alike) the callback fires with the device the message describes, the message's own
+    listener does not refuse by design (`validLocation`: http(s), parsed host not `localhost` /
+    loopback / IPv4 link-local — IPv4, IPv6 or named host alike) the callback fires with the device the message describes, the message's own
     ST/NT, and the description URL as the device's location. -/
 theorem listener_accepts {t : DevTree} (hw : wfTree t = true) (c : Cfg) (hl : validLocation c.location = true) :
     (∀ ar st, ∀ m ∈ buildResponses t ar st, ∃ e ∈ (expected t ar st).1, m.usn = e.usn ∧
